@@ -27,6 +27,7 @@ Inductive expr :=
 | ESelfCall (m : meth) (a : expr)   (* self.m(a) *)
 | EIs (a b : expr) | EIsNot (a b : expr)
 | ENot (a : expr)
+| EAnd (a b : expr) | EOr (a b : expr)   (* short-circuit; the value is that of the deciding operand *)
 | ETbNext.                       (* sys.exc_info()[2].tb_next *)
 
 Inductive stmt :=
@@ -176,6 +177,18 @@ Section Interp.
     | ENot a =>
         match eval cur l a with
         | (la, EV va) => (la, EV (PBool (negb (truth va))))
+        | r => r
+        end
+    | EAnd a b =>
+        match eval cur l a with
+        | (la, EV va) =>
+            if truth va then let (lb, r) := eval cur l b in (la ++ lb, r) else (la, EV va)
+        | r => r
+        end
+    | EOr a b =>
+        match eval cur l a with
+        | (la, EV va) =>
+            if truth va then (la, EV va) else let (lb, r) := eval cur l b in (la ++ lb, r)
         | r => r
         end
     | ETbNext =>
